@@ -1,3 +1,4 @@
+import Cctp.Lemmas.Batch
 import Cctp.Lemmas.Count
 /-
   C13 — the enabled attesters can always meet the threshold.
@@ -206,5 +207,14 @@ theorem disable_unknown_rejected_no_effect (ext : Ext) (cfg : Cfg) (w : World) (
 /-! non-vacuity: a concrete state with two attesters and threshold 2 satisfies the invariant -/
 example : Inv [(Key.attester [1], .attester [1]), (Key.attester [2], .attester [2]), (Key.threshold, .threshold 2)] :=
   ⟨2, by decide, by decide, by decide⟩
+
+
+/-- the invariant over any list of multi-message transactions (an enable + threshold update + disable may share a
+    transaction; a transaction that fails changes nothing). -/
+theorem inv_txs (ext : Ext) (cfg : Cfg) (txs : List Txn) (w : World) (hs : w.settle = w) (hg : Good ext w.store)
+    (hb : count w.store + (committed ext cfg w txs).length < 2 ^ 32) (hi : Inv w.store) :
+    Inv (runTxs ext cfg w txs).1.store := by
+  rw [runTxs_flatten ext cfg txs w hs]
+  exact inv_run ext cfg _ w hg hb hi
 
 end Cctp.C13
